@@ -39,6 +39,8 @@ FILTERS = [
     {"kinds": [1]}, {"kinds": [1, 2]}, {"kinds": [2]}, {"authors": [E.PKS[0]]}, {"#t": ["a"]}, {"#t": ["a", ""]},
     {"kinds": [1], "since": E.T0 + 3}, {"kinds": [1, 2], "until": E.T0 + 4}, {"kinds": [20000]},
     {"authors": [E.PKS[1]], "kinds": [1]}, {"#t": [""]},
+    # "only what is new from now on": a subscription without stored results is as open as any other
+    {"kinds": [1], "limit": 0}, {"kinds": [1, 2], "#t": ["a"], "limit": 0},
 ]
 SUBS = ["s1", "s2", "s3", 'q"uote', "a\\u0041", "aA"]   # ids needing JSON escaping; one that un-escapes to another one
 TAGSETS = [[], [["t", "a"]], [["t", ""]], [["t", "b"]], [["t", "a"], ["t", ""]]]
@@ -60,7 +62,11 @@ def st_schedule(draw):
                                         (1, st.just([-1])), (1, st.just([])), (1, st.just([-1, 0])),
                                         # index -2: a filter without any condition ({"limit": 20}) - valid JSON-wise, refused
                                         # as a scan by both backends - placed BEFORE a usable filter
-                                        (2, st.tuples(st.just(-2), st.integers(0, len(FILTERS) - 1)).map(list)))),
+                                        (2, st.tuples(st.just(-2), st.integers(0, len(FILTERS) - 1)).map(list)),
+                                        # index -3: a filter given up only after one of its tag values was taken in
+                                        # ({"#p": [...], "#e": []}: an empty list matches nothing) next to a usable one
+                                        (2, st.tuples(st.just(-3), st.integers(0, len(FILTERS) - 1)).map(list)),
+                                        (1, st.tuples(st.integers(0, len(FILTERS) - 1), st.just(-3)).map(list)))),
                         draw(st.sampled_from([0, 1, 2]))])
         elif k <= 9:
             ops.append(["event", c, draw(st.sampled_from([1, 1, 2, 7, 20000])), draw(st.integers(0, 1)),
@@ -205,7 +211,8 @@ class Fanout(Sub):
                                           "t_end_fed": None, "t_end_settled": None, "t_reg": None, "t_eose": None})
                     else:
                         labels.append("req-without-usable-filter")
-                    c.feed(["REQ", op[2]] + [FILTERS[i] if i >= 0 else ({"kinds": "x"} if i == -1 else {"limit": 20})
+                    c.feed(["REQ", op[2]] + [FILTERS[i] if i >= 0 else ({"kinds": "x"} if i == -1 else {"limit": 20} if i == -2 else
+                                                                        {"#p": [E.PKS[0]], "#e": []})
                                              for i in op[3]], op[4])
                     pending_feed = True
                 elif op[0] == "event":
